@@ -122,7 +122,7 @@ impl TimeZone {
             _ => {
                 let mut local_time_type_index = 0;
                 for transition in self.transitions.iter().rev() {
-                    if transition.unix_leap_time < timestamp {
+                    if transition.unix_leap_time <= timestamp {
                         local_time_type_index = transition.local_time_type_index;
                         break;
                     }
